@@ -33,8 +33,10 @@ LEVEL_TEXT = (
     "unravel∘ravel = id and ravel∘unravel = id for arrays and block arrays of any shapes (order preserved), the function "
     "handed to scipy is func∘join∘reshape, flattening is a bijection onto R^n so scipy's minimiser of the flat problem is "
     "returned as a minimiser of func among containers of x0's form; result has x0's container kind, shape and dtype; "
-    "gradient requested exactly for scipy's gradient-based solvers; generated keyword tables: no accepted keyword silently "
-    "ignored (decide)."
+    "gradient requested exactly for scipy's gradient-based solvers; the flat gradient pairs with flat directions as the "
+    "container of partials pairs slot-wise (true gradient); index layout of block / complex entries; bounds given as "
+    "containers = the same box on the flat vector; vectors of the wrong length rejected for nested shapes too; generated "
+    "keyword tables: no accepted keyword silently ignored (decide)."
 )
 LEVEL_NOTE = (
     "Trusted: Lean kernel + Mathlib (axioms propext, Classical.choice, Quot.sound); jnp.ravel/reshape keep row-major order, "
@@ -52,7 +54,9 @@ RULE = (
     "forms; every accepted keyword (tol, options, bounds as pairs / Bounds, constraints as dict / LinearConstraint / "
     "NonlinearConstraint, callback, hess, hessp, args) in a scenario where the direct scipy answer with the keyword differs "
     "from the one without; helper round trips on random containers + wrong-length vectors. A case is non-trivial when the "
-    "container is not a 1-d float64 array or a non-default keyword is passed; distinct by (form, objective, method, scenario)."
+    "container is not a 1-d float64 array or a non-default keyword is passed; distinct by (form, objective, method, scenario). "
+    "Round 2: bounds given as containers (flattened by the model's layout, result checked entrywise), minimize_scalar with "
+    "functions returning arrays of 7 shapes and with argument combinations scipy rejects, _unravel on () and wrong lengths."
 )
 ASSUMPTIONS = [
     "scipy.optimize.minimize / minimize_scalar are the reference for the flattened problem (contract)",
@@ -763,6 +767,13 @@ def section_scalar(env, ctx, model):
             ("bounded-zero-bounds", {"method": "bounded", "bounds": (0, 0.0 + abs(a) + 1.0)}),
             ("empty-options", {"options": {}}),
             ("args+bounded+xatol", {"args": (0.75,), "method": "bounded", "bounds": (a - 2.0, a + 2.0), "options": {"xatol": 1e-2}}),
+            # combinations scipy rejects: the wrapper must not swallow them
+            ("brent+bounds", {"method": "brent", "bounds": (a - 1.0, a + 1.0)}),
+            ("golden+bounds", {"method": "golden", "bounds": (a - 1.0, a + 1.0)}),
+            ("bounded-without-bounds", {"method": "bounded"}),
+            ("bounded+bracket", {"method": "bounded", "bounds": (a - 1.0, a + 1.0), "bracket": (a - 1.0, a)}),
+            ("bounds-only", {"bounds": (a - 0.5, a + 1.5)}),
+            ("unknown-method", {"method": "newton"}),
         ]
         for tag, kw in calls:
             with warnings.catch_warnings():
@@ -788,7 +799,7 @@ def section_scalar(env, ctx, model):
                 fail = {"call": f"solver.minimize_scalar(f, {tag})", "a": a,
                         "scico": ({"x": float(impl[1].x), "fun": float(impl[1].fun), "nfev": int(impl[1].nfev)} if impl[0] == "ok" else {"err": impl[1]}),
                         "direct": ({"x": float(ref[1].x), "fun": float(ref[1].fun), "nfev": int(ref[1].nfev)} if ref[0] == "ok" else {"err": ref[1]})}
-                ctx.disagree("wrap.minimize_scalar", {"section": "scalar", "tag": tag, "a": a}, fail["scico"], fail["direct"], oracle=lambda c: fail)
+                ctx.disagree("wrap.minimize_scalar", {"section": "scalar", "tag": tag, "a": a}, fail["scico"], fail["direct"], oracle=lambda c, fail=fail: fail)
 
 
 def run_corpus(env, ctx, model):
